@@ -70,6 +70,28 @@ Proof.
       unfold bin_get. clear. generalize (Z.to_nat j). induction (Z.to_nat BIN_COUNT) as [|k IH]; intros q; destruct q; cbn; auto.
 Qed.
 
+(* ---------- HeapAllocatorT:deallocall: the walk that clears the marks ends within the fuel ---------- *)
+Lemma clear_marks_ok he : forall chunks s m fuel,
+  tiled s chunks he -> Forall (fun x => n_size m (c_addr x) = c_sz x) chunks ->
+  s + NODE + NODE <= two64 \/ chunks = [] -> he + NODE <= two64 -> 0 <= s ->
+  (length chunks < fuel)%nat -> exists m', clear_marks fuel m s he = Some m'.
+Proof.
+  pose proof NODE_eq as HN.
+  induction chunks as [|x r IH]; intros s m fuel Ht Hs Hb Htop H0 Hf; destruct fuel as [|k]; cbn [length] in Hf; try lia; cbn [clear_marks].
+  - cbn [tiled] in Ht. subst s. rewrite Z.ltb_irrefl. eexists. reflexivity.
+  - cbn [tiled] in Ht. destruct Ht as (Ea & Hsz & Ht). pose proof (tiled_le _ _ _ Ht) as Hle.
+    assert (E : (s <? he) = true) by (apply Z.ltb_lt; lia). rewrite E.
+    pose proof (Forall_inv Hs) as Hx. pose proof (Forall_inv_tail Hs) as Hr. cbn beta in Hx.
+    unfold next_adj. rewrite Ea in Hx. rewrite Hx. rewrite (w64_small (s + NODE)) by lia.
+    rewrite (w64_small (s + NODE + c_sz x)) by lia.
+    apply IH; try assumption; try lia.
+    + rewrite Forall_forall in *. intros y Hy. unfold n_size.
+      pose proof (tiled_bounds _ _ _ Ht) as HB. rewrite Forall_forall in HB. destruct (HB y Hy) as (? & _).
+      rewrite mget_mset_other by lia. rewrite mget_mset_other by lia. apply Hr. exact Hy.
+    + destruct r as [|y r']; [right; reflexivity | left].
+      cbn [tiled] in Ht. destruct Ht as (_ & ? & Ht'). apply tiled_le in Ht'. lia.
+Qed.
+
 (* ---------- one step ---------- *)
 Lemma cstep_sim c s sa live o :
   hcfg_ok c -> hinv c sa live -> SR c s sa -> hop_usize o ->
@@ -132,8 +154,23 @@ Proof.
         rewrite Hcr. rewrite Har in Hst. apply Z.eqb_neq in Hn0. rewrite Hn0 in *.
         destruct (q =? 0); inversion Hst; subst sa' live'; eexists; eexists; eexists;
           (split; [reflexivity|]); (split; [exact Hst0|]); (split; [exact Hi'|]); (split; [reflexivity|]); intros _; exact Hrep'.
-  - inversion Hst; subst. eexists. eexists. eexists. split; [reflexivity|]. split; [exact Hst0|]. split; [exact Hi'|].
-    split; [reflexivity|]. cbn. discriminate.
+  - inversion Hst; subst.
+    assert (Hda : exists s1, hp_deallocall c s = HOk s1 /\ h_initialized s1 = false).
+    { unfold hp_deallocall. rewrite Hfl. unfold hinv in Hi. destruct (ha_initialized sa) eqn:Ein.
+      - specialize (Hrep eq_refl). pose proof Hi as [Hpos Htop Ht Hal Hb Hl].
+        pose proof (MI_of_inv _ _ _ _ _ _ _ Hi Hrep) as HM. pose proof NODE_eq as HN. pose proof MIN_range.
+        assert (Hfu : (length (ha_chunks sa) < heap_fuel c)%nat).
+        { pose proof (chunks_len _ _ _ Ht) as Hcl. unfold heap_fuel. rewrite HN.
+          assert (Z.of_nat (length (ha_chunks sa)) <= h_size c / 32) by (apply Z.div_le_lower_bound; lia).
+          assert (0 <= h_size c / 32) by lia. lia. }
+        destruct (clear_marks_ok (heap_end c) (ha_chunks sa) (heap_start c) (h_mem s) (heap_fuel c) Ht (rp_sizes _ _ _ _ _ Hrep)) as (m' & Hcm); try lia.
+        { destruct (ha_chunks sa) as [|x r]; [right; reflexivity | left].
+          cbn [tiled] in Ht. destruct Ht as (_ & ? & Ht'). apply tiled_le in Ht'. lia. }
+        rewrite Hcm. eexists. split; reflexivity.
+      - eexists. split; reflexivity. }
+    destruct Hda as (s1 & Hd1 & Hin1). rewrite Hd1.
+    eexists. eexists. eexists. split; [reflexivity|]. split; [exact Hst0|]. split; [exact Hi'|].
+    split; [exact Hin1|]. cbn. discriminate.
 Qed.
 
 (* ---------- whole histories ---------- *)
@@ -203,20 +240,3 @@ Proof.
   rewrite Hu. cbn [Z.eqb]. reflexivity.
 Qed.
 
-(* deallocall forgets the chunks but leaves their NODE_COOKIE marks in the buffer: a pointer of the
-   previous generation still passes the cookie test once its old header lies inside a new block.
-   heap(1024): alloc(100); b = alloc(50); deallocall; alloc(400); dealloc(b) is accepted *)
-Theorem heap_mem_invalid_free_reported_refuted_proof : ~ heap_mem_invalid_free_reported_full.
-Proof.
-  intros H.
-  pose (c := mkhcfg 4104 1024).
-  assert (Hc : hcfg_ok c) by (unfold hcfg_ok, c, two64; cbn; lia).
-  pose (ops := [HAlloc 100; HAlloc 50; HDeallocAll; HAlloc 400]).
-  assert (Hu : Forall hop_usize ops) by (unfold ops, hop_usize, usize, two64; repeat constructor; lia).
-  destruct (crun c (heap_init_state, []) ops) as [[s live]|] eqn:E; [|vm_compute in E; discriminate E].
-  assert (Hin : h_initialized s = true) by (vm_compute in E; inversion E; reflexivity).
-  assert (Hl : live = [mkblk (4104 + 40) 400]) by (vm_compute in E; inversion E; reflexivity).
-  specialize (H c ops s live (4104 + 184) Hc Hu E Hin ltac:(unfold two64; lia)).
-  assert (Hnot : ~ In (4104 + 184) (map b_addr live)) by (rewrite Hl; cbn; intros [Hx | []]; discriminate Hx).
-  specialize (H Hnot). vm_compute in E. inversion E; subst s. vm_compute in H. discriminate H.
-Qed.
